@@ -167,8 +167,11 @@ impl<'p, 'a> Evaluator<'a, 'p> {
             // so that evaluating them again repeats the computation instead of
             // reporting an infinite recursion.
             for state in this.state_stack.drain(..) {
-                if let State::GotThunk(thunk, pending) = state {
-                    thunk.restore_pending(pending);
+                match state {
+                    State::GotThunk(thunk, pending) => thunk.restore_pending(pending),
+                    // The asserts did not all pass: check them again next time.
+                    State::ObjectAssertsInProgress(object) => object.asserts_checked.set(false),
+                    _ => {}
                 }
             }
             return Err(e);
@@ -261,6 +264,7 @@ impl<'p, 'a> Evaluator<'a, 'p> {
                         return Err(self.report_error(EvalErrorKind::InfiniteRecursion));
                     }
                 },
+                State::ObjectAssertsInProgress(_) => {}
                 State::GotThunk(thunk, _) => {
                     let value = self.value_stack.last().unwrap();
                     thunk.set_done(value.clone());
@@ -1652,6 +1656,12 @@ impl<'p, 'a> Evaluator<'a, 'p> {
     fn check_object_asserts(&mut self, object: &GcView<ObjectData<'p>>) {
         if !object.asserts_checked.get() {
             object.asserts_checked.set(true);
+            let has_asserts = !object.self_layer.asserts.is_empty()
+                || object.super_layers.iter().any(|l| !l.asserts.is_empty());
+            if has_asserts {
+                self.state_stack
+                    .push(State::ObjectAssertsInProgress(object.clone()));
+            }
             let layer_iter = object
                 .super_layers
                 .iter()
